@@ -103,9 +103,10 @@ def mutate(rng, obj):
     return how
 
 
-def access(rng, ds, n, keys):
+def access(rng, ds, n, keys, threads=True):
     """one access by a random path: returns [(position, object)]"""
-    how = rng.choice(['int', 'neg', 'iter', 'slice', 'items', 'key', 'copy', 'prefetch'])
+    how = rng.choice(['int', 'neg', 'iter', 'slice', 'items', 'key', 'copy', 'prefetch'] if threads else
+                     ['int', 'neg', 'iter', 'slice', 'items', 'key', 'key', 'copy'])
     if n == 0:
         return 'iter', [(i, v) for i, v in enumerate(ds)]
     if how == 'int':
@@ -142,7 +143,19 @@ def one_history(rng, mode, tmpdirs):
     with warnings.catch_warnings():
         warnings.simplefilter('ignore')
         base_mode = {'cache': 'pickle', 'diskcache': 'pickle', 'cache_over_map': 'pickle'}.get(mode, mode)
-        ds = lazy_dataset.new(original, immutable_warranty=base_mode)
+        if mode in ('cache_over_table', 'diskcache_over_table'):
+            # an upstream that does NOT isolate (it hands out the objects of an in-memory table): whatever
+            # goes through the cache must be isolated by the cache itself, on every access path
+            idx = {k: i for i, k in enumerate(keys)} if keyed else list(range(n))
+            ds = lazy_dataset.new(idx).map(lambda i: examples[i])
+            if mode == 'cache_over_table':
+                ds = ds.cache(keep_mem_free='1 MB')
+            else:
+                d = tempfile.mkdtemp(prefix='verif_c09_')
+                tmpdirs.append(d)
+                ds = ds.diskcache(cache_dir=d + '/c', reuse=False, clear=True)
+        else:
+            ds = lazy_dataset.new(original, immutable_warranty=base_mode)
         if mode == 'cache':
             ds = ds.cache()
         elif mode == 'cache_over_map':
@@ -157,6 +170,8 @@ def one_history(rng, mode, tmpdirs):
             act = rng.choice(['access', 'access', 'mutate', 'mutate_original', 'live_start', 'live_start', 'live_next', 'live_next', 'live_next', 'live_next'])
             if act == 'live_start' and n:
                 kind = rng.choice(['iter', 'items', 'prefetch1', 'copy_iter'] if keys else ['iter', 'prefetch1', 'copy_iter'])
+                if kind == 'prefetch1' and mode.endswith('_over_table'):
+                    kind = 'iter'       # (two threads missing the cache at once both receive the upstream's own object)
                 it = {'iter': lambda: iter(ds), 'items': lambda: iter(ds.items()), 'prefetch1': lambda: iter(ds.prefetch(1, 1)),
                       'copy_iter': lambda: iter(ds.copy())}[kind]()
                 live.append([kind, it, 0])
@@ -185,7 +200,7 @@ def one_history(rng, mode, tmpdirs):
             if act in ('live_start', 'live_next'):
                 act = 'access'
             if act == 'access' or not handed:
-                how, got = access(rng, ds, n, keys)
+                how, got = access(rng, ds, n, keys, threads=not mode.endswith('_over_table'))
                 steps.append(('access', how))
                 for pos, obj in got:
                     if not deq(obj, pristine[pos]):
@@ -208,7 +223,7 @@ def one_history(rng, mode, tmpdirs):
 def run(rep):
     rng = random.Random(rep.seed * 23 + 9)
     nh = 2000 if rep.tier == 'quick' else 30000
-    modes = ['pickle', 'copy', 'wu', 'cache', 'cache_over_map', 'diskcache']
+    modes = ['pickle', 'copy', 'wu', 'cache', 'cache_over_map', 'diskcache', 'cache_over_table', 'diskcache_over_table']
     tmpdirs = []
     fails = []
     dist = {m: 0 for m in modes}
@@ -217,8 +232,8 @@ def run(rep):
     try:
         for i in range(nh):
             mode = modes[i % len(modes)] if i % 13 else rng.choice(modes)
-            if mode == 'diskcache' and i % 4:
-                mode = 'pickle'
+            if mode.startswith('diskcache') and i % 4:
+                mode = 'pickle' if mode == 'diskcache' else 'cache_over_table'
             f, ns, mode = one_history(rng, mode, tmpdirs)
             dist[mode] += 1
             steps_total += ns
